@@ -273,6 +273,10 @@ func (am *Machine) handleStateDkgResponsesAwaitConfirmations(o *client.Operation
 		if err = json.Unmarshal(decryptedDealBz, &deal); err != nil {
 			return fmt.Errorf("failed to unmarshal deal")
 		}
+		// kyber dereferences the encrypted deal without checking it
+		if deal.Deal == nil {
+			return fmt.Errorf("malformed deal from participant %s: no encrypted deal inside", entry.Username)
+		}
 		dkgInstance.StoreDeal(entry.Username, &deal)
 	}
 
